@@ -76,6 +76,7 @@ CHECKS = {
 
 # extensions added after the first complete version (DESIGN §9.10-§9.12): appended to the level text
 EXTRA = {
+ "C03": " Extension `account-guards`: the example account's self-administration entry points (add/remove rule, signer, policy, rename, valid_until, execute, upgrade) under six authorization variants (rows of the C06 guard audit for this example).",
  "C04": " Extension: the `real-idv` sub-check wires the token to the library's real identity stack (IdentityVerifier, claim topics and issuers, identity registry storage) and includes recover_identity / recover_balance histories (registered recovery target, whole balance with freeze status carried) and a second compliance module.",
  "C05": " The Totals probe also checks the documented max_deposit / max_mint constants and the share decimals (underlying decimals + offset).",
  "C06": " Extensions: low-level role clean-up operations (remove_role_admin / remove_role_accounts_count) in the acl history; the guard macros stacked with pause guards (principal half); `example-guards`, a table-driven audit of 60 guarded entry points of 17 example contracts under six authorization variants (run only under the exact entry of the rightful principal; refused calls leave no trace; the exact entry succeeds).",
